@@ -102,7 +102,6 @@ package node
 //@   requires[flags] !(fl.Data().Discard && fl.Data().Returning)   // a result is either dropped or returned, never both
 //@   requires[stmt_depth] !isExpr(self) ==> fl.Data().OpDepth == 0   // statements (and builtin bodies) are compiled at operator depth 0
 //@   modifies *cr.CS, allelems(*cr.CS), *cr.DS, allelems(*cr.DS), mapof(*cr.Dbg)
-//@   running[emit]    csKept(cr) && csNewWF(cr) && dsKept(cr)   // holds after every emission step, not only at the end
 //@   ensures[K2_code]  csKept(cr) && csNewWF(cr)
 //@   ensures[K2_data]  dsKept(cr) && crOK(cr)
 //@   ensures[K1_desc]  descOnly(result, srcsel) && operandOK(result, srcsel, len(*cr.DS)) && bck(result, srcsel) != bytecode.AddrImm
